@@ -41,6 +41,23 @@ CHECKS["C02"] = dict(
     note=E2NOTE,
 )
 
+CHECKS["C05"] = dict(
+    engine=E2, category="model_checking", design="§3 C05",
+    technique="symbolic execution of blackbird.loads on declaration skeletons (proxies, symbolic declared shapes and indices); z3 decides placement/type/shape acceptance vs the reference",
+    text="Declaration skeletons (scalars: type x initialiser; arrays: dtype x row lengths incl. ragged x shape declaration x parameter positions x use) are loaded "
+         "by the real code with all element values, the declared shape integers and the index symbolic; z3 decides element placement, element kind, and "
+         "acceptance/rejection for all values at once against the reference interpreter. Bounded (<=3x3).",
+    note=E2NOTE,
+)
+CHECKS["C06"] = dict(
+    engine=E2, category="model_checking", design="§3 C06",
+    technique="symbolic execution of blackbird.loads on loop skeletons with symbolic range bounds (trip-count forks) and list values; z3 decides impl vs unrolled reference per path x reference case",
+    text="Loop skeletons with symbolic range bounds a:b:c (trip count forked up to K on both sides independently), value lists in three bracket styles with "
+         "symbolic values, bodies of 1-3 statements, statements before/after and use of the loop variable after the loop; compared with the reference "
+         "unrolling for all values by z3. Bounded by K and the generator.",
+    note=E2NOTE,
+)
+
 NOT_YET = "check not built yet in this round (see DESIGN.md §3 for the plan); not claimed"
 
 
